@@ -211,14 +211,16 @@ type c05LoopCase struct {
 	N      int           `json:"waits"`
 	// The consumer of the requests takes request number StallAt only after Stall (the
 	// scheduler is busy): the loop's send blocks that long.
-	StallAt int           `json:"stall_at,omitempty"`
-	Stall   time.Duration `json:"stall,omitempty"`
+	// Lifetime: the interface's default_lifetime (the waits do not depend on it).
+	Lifetime time.Duration `json:"default_lifetime,omitempty"`
+	StallAt  int           `json:"stall_at,omitempty"`
+	Stall    time.Duration `json:"stall,omitempty"`
 }
 
 func c05Loop(t *testing.T, c c05LoopCase) (viol [][2]string, gaps []time.Duration) {
 	synctest.Test(t, func(t *testing.T) {
 		time.Sleep(c.Offset)
-		a := NewAdvertiser(NewContext(nil, nil, nil), config.Interface{Name: "eth0", MinInterval: c.Min, MaxInterval: c.Max}, nil, nil, func() bool { return false })
+		a := NewAdvertiser(NewContext(nil, nil, nil), config.Interface{Name: "eth0", Advertise: true, MinInterval: c.Min, MaxInterval: c.Max, DefaultLifetime: c.Lifetime, HopLimit: 64}, nil, nil, func() bool { return false })
 		ctx, cancel := context.WithCancel(context.Background())
 		ipC := make(chan netip.Addr, 16)
 		if c.Stall > 0 {
@@ -304,7 +306,7 @@ func c05Loop(t *testing.T, c c05LoopCase) (viol [][2]string, gaps []time.Duratio
 func TestVerifC05Loop(t *testing.T) {
 	r := ev.Begin("C05", "loop")
 	defer r.End(t)
-	r.Rule = "the real Advertiser.multicast loop under a virtual clock (testing/synctest): 26 (min,max) pairs x 3 start instants (= PRNG seeds) x 6 waits, 3 pairs x 600 consecutive waits, and 3 pairs x a request taken late (by 0.5, 2.5, 7 intervals; at request 1, 2, 4) over an unbuffered channel; oracle: requests start within max, every wait is a whole number of seconds within the bounds (<=16s for the first three), requests recur and stop at cancellation; non-trivial = every run; distinct = distinct (pair, offset)"
+	r.Rule = "the real Advertiser.multicast loop under a virtual clock (testing/synctest): 26 (min,max) pairs x 3 start instants (= PRNG seeds) x 6 waits, 3 pairs x 600 consecutive waits, every pair x default_lifetime {max_interval, 3*max, 9000 s}, and 3 pairs x a request taken late (by 0.5, 2.5, 7 intervals; at request 1, 2, 4) over an unbuffered channel; oracle: requests start within max, every wait is a whole number of seconds within the bounds (<=16s for the first three), requests recur and stop at cancellation; non-trivial = every run; distinct = distinct (pair, offset)"
 	if !c05MulticastSig() {
 		r.Capped("Advertiser.multicast no longer has the signature (context.Context, chan<- netip.Addr): this narrow-seam part is skipped, part 'recur' drives the loop through the whole Advertiser")
 		return
@@ -330,6 +332,16 @@ func TestVerifC05Loop(t *testing.T) {
 	for _, p := range pairs {
 		for _, off := range []time.Duration{0, 1, 12345678901} {
 			cases = append(cases, c05LoopCase{Min: p[0], Max: p[1], Offset: off, N: 6})
+		}
+	}
+	// Every router lifetime the configuration accepts next to the pair, at its ends: the
+	// smallest (= max_interval, rounded up to a whole second), the default 3*max, 9000 s.
+	for _, p := range pairs {
+		lo := (p[1] + s - 1) / s * s
+		for _, lt := range []time.Duration{lo, 3 * p[1], 9000 * s} {
+			if lt >= p[1] && lt <= 9000*s {
+				cases = append(cases, c05LoopCase{Min: p[0], Max: p[1], Offset: 987654321, N: 6, Lifetime: lt})
+			}
 		}
 	}
 	// Long runs: every wait of 600 consecutive ones (indices beyond any small counter).
